@@ -72,6 +72,9 @@ def runKeyTable (env : Env) (rest : String) : String :=
 def runKeySeq (env : Env) (rest : String) : String :=
   match words rest with
   | [name, kind, exp, h1, h2] =>
+    if kind = "afteresc" then   -- h2 (ESC bytes) read and resolved by the escape timeout first, then the key h1
+      run env s!"{name} utf8 80 24 {h2}:1 {h1}:{exp}"
+    else
     let b := (if kind = "alt" then [27] else []) ++ unhex h1 ++ unhex h2
     run env s!"{name} utf8 80 24 {hex b}:{exp}"
   | _ => "bad-line"
